@@ -24,4 +24,4 @@ for d in sorted(glob.glob(os.path.join(ROOT, "seeded", prefix + "*"))):
     chg = m.get("change", "")[:170] + ("..." if len(m.get("change", "")) > 170 else "")
     needs = m.get("needs_to_manifest", "")[:120]
     note = " **neutralised**" if m.get("status") == "neutralised" else ""
-    print(f"| {sid}{note} | {tgt} | {chg} *({needs})* | {'; '.join(tv)} | {' '.join(caught) or '-'}{(' (inconclusive: ' + ' '.join(incon) + ')') if incon else ''} |")
+    print(f"| {sid}{note} | {tgt} | {chg} *({needs})* | {'; '.join(tv)} | {' '.join(caught) or ('-' if res else '(matrix not run)')}{(' (inconclusive: ' + ' '.join(incon) + ')') if incon else ''} |")
